@@ -216,7 +216,7 @@ func (cr *c05Run) c5lMixedAggregateCases() {
 				e.count("c5l:mixed_aggregate_field")
 				if c05Outcome(on) != c05Outcome(off) {
 					rp.What = "switching the field cache changes the result: a field name beside an aggregate call is evaluated after the scan, on no pair"
-					e.fail(idx, "switching the field cache changes the result of an aggregate select field that also uses a field name (" + c05Mode(batch, B) + ")",
+					e.fail(idx, "switching the field cache changes the result of an aggregate select field that also uses a field name ("+c05Mode(batch, B)+")",
 						"C05/cache-visible/aggregate-field-with-pair-term", rp)
 				}
 			}
